@@ -1,26 +1,38 @@
 /-
 C20 — the breeding-programme loop applies operators in order on independent replicates.
-Property theorems only (helper lemmas: Lemmas/ProgramBasic, ProgramSteps, ProgramLoop, ProgramEvolve).
+Property theorems only (helper lemmas: Lemmas/Program*.lean).
 
 Model: PybropsModel/Model/Program.lean — statement language + heap semantics of
 `RecurrentSelectionBreedingProgram.reset/advance/evolve`; the statement lists of the *current*
-source are regenerated on every run into Generated/C20Schedule.lean.
+source are regenerated on every run into Generated/C20Schedule.lean (one Lean statement per Python
+statement, nothing normalised).  Model/ProgramSym.lean — `WellFormed`, a dataflow analysis of a
+schedule by symbolic execution.
 
 Reading guide.
+* The heap is an object graph: cells hold data and references to other cells (sharing and cycles
+  allowed).  `copy.deepcopy` is modelled on it (`deepCopyAll`: every cell that existed at
+  initialisation is copied, internal references redirected — the part below the copied root is an
+  isomorphic, disjoint graph).  What a call is handed is observed as `view`, the depth-bounded
+  unfolding of the graph below a reference; all theorems hold for every depth.
 * `evolve ops cfg sc st` runs `evolve(nrep, ngen, lbook, loginit)` of schedule `sc` from programme
-  state `st` with operators `ops` (arbitrary functions with internal state `σ` on a heap of cells
-  with arbitrary contents `V`).  The semantics records what every call was handed and returned.
-* `Ready ops st` : the state `evolve` is called in (five start slots holding valid references or
-  `None`; if one is `None` the initialisation operator returns five valid containers; working
-  variables left from earlier calls are not start containers).
-* `Respects S ops` : the only assumption on operators and logbook — a call that is not handed one
-  of the stored start containers `S` neither modifies nor returns one.  In-place mutation of
-  whatever is or was handed, allocation, aliasing, history dependence are all allowed.
-* `specTrace R nrep ngen loginit V0 trace` : the decidable Spec (also run on the trace of the real
-  class): per replicate one evaluation at time 0 of containers whose contents equal the initial
-  state, its log entry, then per generation pselect·log·mate·log·evaluate·log·sselect·log at times
-  1, 2, …, every call receiving (relation `R`) what its predecessor returned, the start containers
-  holding their initial contents at every call, nothing else in the trace.
+  state `st` with operators `ops` (arbitrary functions with internal state `σ` on the heap).  The
+  semantics records what every call was handed and returned.
+* `WellFormed sc` : the dataflow of `sc` is the one the property describes — every operator once per
+  generation, in order, each handed (by whatever variable names, keyword order, intermediate moves)
+  what its predecessor returned, a log call after each, the clock read at its entry value and
+  incremented once; per replicate one evaluation at clock 0 of pristine deep copies of the five
+  start containers (copied in any order, the clock zeroed anywhere before).  Proved sound
+  (Lemmas/ProgramSymSound.lean); closed by `decide` for the schedule of the current source.
+* `Ready ops st` : the state `evolve` is called in (five start slots; once initialised — by the caller
+  or by the initialisation operator — the object graphs below the start containers exist, are not
+  referenced from outside, the heap is well formed; leftover working variables point elsewhere).
+* `Respects S ops` : the only assumption on operators and logbook, over reachability — a call that
+  is not handed anything inside the object graphs of the start containers `S` leaves those graphs
+  alone, stores no reference into them, and returns nothing inside them.
+  `Frame ops` (mutate only what is reachable from the arguments, allocate) implies it.
+* `effNgen sc cfg = some n` : the generation count the call works with — the argument `ngen`, or
+  `t_max` for `ngen = None` when the schedule implements that documented default (`HandlesNone`).
+* `specTrace R nrep n loginit V0 trace` : the decidable Spec (also run on the trace of the real class).
 -/
 import PybropsModel.Lemmas.ProgramDemo
 import PybropsModel.Generated.C20Schedule
@@ -30,60 +42,69 @@ set_option linter.unusedSectionVars false
 namespace C20
 open Program
 
-/-- **The obligation that follows the source.**  The call skeleton regenerated from the current
-    `RecurrentSelectionBreedingProgram.py` is, up to `if verbose: print(...)`, the canonical one. -/
+/-- **The obligations that follow the source.**  The dataflow of the schedule regenerated from the
+    current `RecurrentSelectionBreedingProgram.py` is the one the property describes … -/
 theorem schedule_wellformed : WellFormed C20Schedule.evolve = true := by decide
+
+/-- … its `reset()` on its own re-creates the five working containers and zeroes the clock … -/
+theorem schedule_reset_selfcontained : wfReset C20Schedule.evolve = true := by decide
+
+/-- … and `evolve` gives `ngen = None` its documented default (`t_max`) before the replicate loop
+    (repaired by 89fb67b3; this obligation breaks if the default handling disappears). -/
+theorem schedule_handles_none : HandlesNone C20Schedule.evolve = true := by decide
 
 section generic
 variable {σ V : Type} [DecidableEq V]
 
-/-- the events recorded by one call -/
-def newEvents (st st' : State σ V) : List (Event V) := st'.trace.drop st.trace.length
-
-/-- **Main theorem (full strength).**  For every well-formed schedule, all replicate and generation
-    counts, both settings of `loginit`, all operator / logbook / initialisation implementations that
-    respect the stored start containers, all heaps and all initial states: the trace of `evolve`
-    satisfies the Spec — call order, one initial evaluation per replicate on a state equal to the
-    initial one, clock 0 then 1, 2, …, each call handed what its predecessor returned, a log entry
-    after every step, start containers holding their initial contents at every call.
+/-- **Main theorem (full strength).**  For every schedule with the right dataflow, all replicate
+    and generation counts (`None` included when the schedule implements its default), both settings
+    of `loginit`, all operator / logbook / initialisation implementations that respect the stored
+    start containers, all heaps and all initial states: the trace of `evolve` satisfies the Spec —
+    call order, one initial evaluation per replicate on a state equal to the initial one, clock 0
+    then 1, 2, …, each call handed what its predecessor returned, a log entry after every step,
+    start containers holding their initial contents at every call.
     `R` may be any relation that holds between items with the same reference: `sameRef` gives
     identity wiring, `sameOrEqual` is the relation the run-time oracle uses. -/
 theorem evolve_meets_spec (sc : Schedule) (hwf : WellFormed sc = true) (ops : Ops σ V) (cfg : Cfg V)
     (st : State σ V) (hr : Ready ops st) (hR : Respects (startRefs ops st) ops)
-    (R : Item V → Item V → Bool) (hRR : ReflOnRefs R) :
-    specTrace R cfg.nrep cfg.ngen cfg.loginit (startVals st.heap st.start)
+    (n : Nat) (hn : effNgen sc cfg = some n)
+    (R : Item (View V) → Item (View V) → Bool) (hRR : ReflOnRefs R) :
+    specTrace R cfg.nrep n cfg.loginit (startVals cfg.depth st.heap st.start)
       (newEvents st (evolve ops cfg sc st)) = true := by
-  rw [evolve_of_wellFormed sc hwf]
-  obtain ⟨s', es0, es1, V0, q, _, tr, _, _, _, _, _, spec, _⟩ := evolve_canonical (cfg := cfg) hr hR
-  rw [q]
-  unfold newEvents
-  rw [tr, List.drop_left']
-  · exact spec R hRR
-  · rfl
+  obtain ⟨s', es0, es1, V0, q, _, tr, _, _, _, _, _, spec, _⟩ := evolve_wf (cfg := cfg) sc hwf hr hR n hn
+  rw [q, newEvents_of_append tr]
+  exact spec R hRR
+
+/-- `ngen = None` (documented: "use t_max"): a schedule that implements the default runs `t_max`
+    generations per replicate and meets the Spec for that count -/
+theorem evolve_ngen_none_meets_spec (sc : Schedule) (hwf : WellFormed sc = true) (hH : HandlesNone sc = true)
+    (ops : Ops σ V) (cfg : Cfg V) (hnone : cfg.ngen = none) (st : State σ V) (hr : Ready ops st)
+    (hR : Respects (startRefs ops st) ops) (R : Item (View V) → Item (View V) → Bool) (hRR : ReflOnRefs R) :
+    specTrace R cfg.nrep cfg.tmax cfg.loginit (startVals cfg.depth st.heap st.start)
+      (newEvents st (evolve ops cfg sc st)) = true :=
+  evolve_meets_spec sc hwf ops cfg st hr hR cfg.tmax (by simp [effNgen, hH, hnone]) R hRR
 
 /-- earlier log of calls is never rewritten: the trace only grows -/
 theorem evolve_trace_extends (sc : Schedule) (hwf : WellFormed sc = true) (ops : Ops σ V) (cfg : Cfg V)
-    (st : State σ V) (hr : Ready ops st) (hR : Respects (startRefs ops st) ops) :
+    (st : State σ V) (hr : Ready ops st) (hR : Respects (startRefs ops st) ops)
+    (n : Nat) (hn : effNgen sc cfg = some n) :
     (evolve ops cfg sc st).trace = st.trace ++ newEvents st (evolve ops cfg sc st) := by
-  rw [evolve_of_wellFormed sc hwf]
-  obtain ⟨s', es0, es1, V0, q, _, tr, _⟩ := evolve_canonical (cfg := cfg) hr hR
-  rw [q]
-  unfold newEvents
-  rw [tr, List.drop_left' rfl]
+  obtain ⟨s', es0, es1, V0, q, _, tr, _⟩ := evolve_wf (cfg := cfg) sc hwf hr hR n hn
+  rw [q, newEvents_of_append tr, tr]
 
 /-- **The stored initial state is never modified, and the run does not crash.**  After `evolve`
     the programme has not raised, the start slots hold the same references as after initialisation,
     and — when the programme was initialised by the caller — the same slots with the same contents
     as before the call, whatever the operators did to their working copies. -/
 theorem evolve_start_intact (sc : Schedule) (hwf : WellFormed sc = true) (ops : Ops σ V) (cfg : Cfg V)
-    (st : State σ V) (hr : Ready ops st) (hR : Respects (startRefs ops st) ops) :
+    (st : State σ V) (hr : Ready ops st) (hR : Respects (startRefs ops st) ops)
+    (n : Nat) (hn : effNgen sc cfg = some n) :
     (evolve ops cfg sc st).bad = false ∧
     (evolve ops cfg sc st).start = (startRefs ops st).map some ∧
     (st.start.all Option.isSome = true →
       (evolve ops cfg sc st).start = st.start ∧
-      startVals (evolve ops cfg sc st).heap (evolve ops cfg sc st).start = startVals st.heap st.start) := by
-  rw [evolve_of_wellFormed sc hwf]
-  obtain ⟨s', es0, es1, V0, q, g, _, _, hinit, _⟩ := evolve_canonical (cfg := cfg) hr hR
+      startVals cfg.depth (evolve ops cfg sc st).heap (evolve ops cfg sc st).start = startVals cfg.depth st.heap st.start) := by
+  obtain ⟨s', es0, es1, V0, q, g, _, _, hinit, _⟩ := evolve_wf (cfg := cfg) sc hwf hr hR n hn
   rw [q]
   refine ⟨g.nbad, g.start, ?_⟩
   intro hall
@@ -98,11 +119,10 @@ theorem evolve_start_intact (sc : Schedule) (hwf : WellFormed sc = true) (ops : 
     contents the initialisation operator returned -/
 theorem evolve_start_intact_after_init (sc : Schedule) (hwf : WellFormed sc = true) (ops : Ops σ V)
     (cfg : Cfg V) (st : State σ V) (hr : Ready ops st) (hR : Respects (startRefs ops st) ops)
-    (hnone : st.start.all Option.isSome = false) :
-    startVals (evolve ops cfg sc st).heap (evolve ops cfg sc st).start =
-      vals (ops.init st.ost st.heap).2.1 (ops.init st.ost st.heap).2.2 := by
-  rw [evolve_of_wellFormed sc hwf]
-  obtain ⟨s', es0, es1, V0, q, g, _, _, _, hinit, _⟩ := evolve_canonical (cfg := cfg) hr hR
+    (n : Nat) (hn : effNgen sc cfg = some n) (hnone : st.start.all Option.isSome = false) :
+    startVals cfg.depth (evolve ops cfg sc st).heap (evolve ops cfg sc st).start =
+      vals cfg.depth (ops.init st.ost st.heap).2.1 (ops.init st.ost st.heap).2.2 := by
+  obtain ⟨s', es0, es1, V0, q, g, _, _, _, hinit, _⟩ := evolve_wf (cfg := cfg) sc hwf hr hR n hn
   obtain ⟨_, hv⟩ := hinit hnone
   rw [q, g.startVals, ← hv]
   rfl
@@ -110,71 +130,36 @@ theorem evolve_start_intact_after_init (sc : Schedule) (hwf : WellFormed sc = tr
 /-- **Replicate counter.**  `lbook.rep` grows by one per replicate and every call of replicate `r`
     (0-based) sees `rep₀ + r + 1`. -/
 theorem evolve_replicate_counter (sc : Schedule) (hwf : WellFormed sc = true) (ops : Ops σ V) (cfg : Cfg V)
-    (st : State σ V) (hr : Ready ops st) (hR : Respects (startRefs ops st) ops) :
+    (st : State σ V) (hr : Ready ops st) (hR : Respects (startRefs ops st) ops)
+    (n : Nat) (hn : effNgen sc cfg = some n) :
     (evolve ops cfg sc st).rep = st.rep + cfg.nrep ∧
     ((newEvents st (evolve ops cfg sc st)).filter (fun e => !(e.kind == EvKind.init))).map (fun e => e.rep)
-      = repsOf st.rep cfg.loginit cfg.ngen cfg.nrep := by
-  rw [evolve_of_wellFormed sc hwf]
-  obtain ⟨s', es0, es1, V0, q, _, tr, rp, h1, h2, reps, _, _, hk⟩ := evolve_canonical (cfg := cfg) hr hR
+      = repsOf st.rep cfg.loginit n cfg.nrep := by
+  obtain ⟨s', es0, es1, V0, q, _, tr, rp, h1, h2, reps, _, _, hk, _⟩ := evolve_wf (cfg := cfg) sc hwf hr hR n hn
   rw [q]
   refine ⟨rp, ?_⟩
-  unfold newEvents
-  rw [tr, List.drop_left' rfl, List.filter_append]
+  rw [newEvents_of_append tr, List.filter_append]
   have e0 : es0.filter (fun e => !(e.kind == EvKind.init)) = [] := by
     cases hall : st.start.all Option.isSome with
     | true => rw [(h1 hall).1]; rfl
-    | false =>
-      rw [(h2 hall).1]; simp [initEvent]
+    | false => rw [(h2 hall).1]; simp [initEvent]
   have e1 : es1.filter (fun e => !(e.kind == EvKind.init)) = es1 := by
     apply List.filter_eq_self.mpr
     intro e he
     simp [hk e he]
   rw [e0, e1, List.nil_append, reps]
 
-/-- **`evolve` can be called again.**  The state it leaves satisfies the assumptions under which it
-    was called, with the same start containers — so all theorems above hold for every later call. -/
-theorem evolve_again (sc : Schedule) (hwf : WellFormed sc = true) (ops : Ops σ V) (cfg : Cfg V)
-    (st : State σ V) (hr : Ready ops st) (hR : Respects (startRefs ops st) ops) :
-    Ready ops (evolve ops cfg sc st) ∧ startRefs ops (evolve ops cfg sc st) = startRefs ops st := by
-  rw [evolve_of_wellFormed sc hwf]
-  obtain ⟨s', es0, es1, V0, q, g, _⟩ := evolve_canonical (cfg := cfg) hr hR
-  obtain ⟨s1, _, _, _, _, _, _, hS, _⟩ := pre_spec (cfg := cfg) hr
-  rw [q]
-  exact g.ready hS
-
-/-- the classical frame condition ("operators and logbook mutate only what they are handed, and
-    allocate") is sufficient: it implies `Respects` for any start containers -/
-theorem evolve_meets_spec_of_frame (sc : Schedule) (hwf : WellFormed sc = true) (ops : Ops σ V)
-    (cfg : Cfg V) (st : State σ V) (hr : Ready ops st) (hF : Frame ops) :
-    specTrace sameRef cfg.nrep cfg.ngen cfg.loginit (startVals st.heap st.start)
-      (newEvents st (evolve ops cfg sc st)) = true :=
-  evolve_meets_spec sc hwf ops cfg st hr (hF.respects _) sameRef sameRef_refl
-
-/-- **Instance for the current source**: the schedule regenerated from `/repo` satisfies the Spec
-    (identity wiring) for all operators, counts and initial states. -/
-theorem current_source_meets_spec (ops : Ops σ V) (cfg : Cfg V) (st : State σ V) (hr : Ready ops st)
-    (hR : Respects (startRefs ops st) ops) :
-    specTrace sameRef cfg.nrep cfg.ngen cfg.loginit (startVals st.heap st.start)
-      (newEvents st (evolve ops cfg C20Schedule.evolve st)) = true ∧
-    (evolve ops cfg C20Schedule.evolve st).bad = false ∧
-    (evolve ops cfg C20Schedule.evolve st).start = (startRefs ops st).map some :=
-  ⟨evolve_meets_spec _ schedule_wellformed ops cfg st hr hR sameRef sameRef_refl,
-   (evolve_start_intact _ schedule_wellformed ops cfg st hr hR).1,
-   (evolve_start_intact _ schedule_wellformed ops cfg st hr hR).2.1⟩
-
 /-- **Explicit call sequence.**  Apart from the optional initialisation event the recorded
     (call, clock) pairs are exactly
-    `(evaluate@0 · [log_initialize@0 if loginit] · (pselect·log·mate·log·evaluate·log·sselect·log)@g for g = 1..ngen)^nrep`:
+    `(evaluate@0 · [log_initialize@0 if loginit] · (pselect·log·mate·log·evaluate·log·sselect·log)@g for g = 1..n)^nrep`:
     every operator exactly once per generation, in this order, a log entry after every step. -/
 theorem evolve_call_sequence (sc : Schedule) (hwf : WellFormed sc = true) (ops : Ops σ V) (cfg : Cfg V)
-    (st : State σ V) (hr : Ready ops st) (hR : Respects (startRefs ops st) ops) :
+    (st : State σ V) (hr : Ready ops st) (hR : Respects (startRefs ops st) ops)
+    (n : Nat) (hn : effNgen sc cfg = some n) :
     ((newEvents st (evolve ops cfg sc st)).filter (fun e => !(e.kind == EvKind.init))).map Event.shape
-      = traceShape cfg.loginit cfg.ngen cfg.nrep := by
-  rw [evolve_of_wellFormed sc hwf]
-  obtain ⟨s', es0, es1, V0, q, _, tr, _, h1, h2, _, chk, _, hk⟩ := evolve_canonical (cfg := cfg) hr hR
-  rw [q]
-  unfold newEvents
-  rw [tr, List.drop_left' rfl, List.filter_append]
+      = traceShape cfg.loginit n cfg.nrep := by
+  obtain ⟨s', es0, es1, V0, q, _, tr, _, h1, h2, _, chk, _, hk, _⟩ := evolve_wf (cfg := cfg) sc hwf hr hR n hn
+  rw [q, newEvents_of_append tr, List.filter_append]
   have e0 : es0.filter (fun e => !(e.kind == EvKind.init)) = [] := by
     cases hall : st.start.all Option.isSome with
     | true => rw [(h1 hall).1]; rfl
@@ -184,63 +169,107 @@ theorem evolve_call_sequence (sc : Schedule) (hwf : WellFormed sc = true) (ops :
     intro e he
     simp [hk e he]
   rw [e0, e1, List.nil_append]
-  obtain ⟨pre, hpre, hshape⟩ := checkReps_shape sameRef V0 cfg.loginit cfg.ngen cfg.nrep es1 []
+  obtain ⟨pre, hpre, hshape⟩ := checkReps_shape sameRef V0 cfg.loginit n cfg.nrep es1 []
     (chk sameRef sameRef_refl)
   rw [List.append_nil] at hpre
   rw [hpre, hshape]
 
-/-- **`reset()`** (anchored mechanism 1): from any state satisfying the invariant, the five working
-    variables afterwards refer to valid cells that are none of the start containers, their contents
-    equal the initial state, the clock is 0, nothing is logged and the invariant still holds. -/
-theorem reset_restores_start (sc : Schedule) (hwf : WellFormed sc = true) (ops : Ops σ V) (cfg : Cfg V)
-    (S : List Ref) (V0 : List (Option V)) (hS : S.length = 5) (st : State σ V) (g : Good S V0 st) :
+/-- **`evolve` can be called again.**  The state it leaves satisfies the assumptions under which it
+    was called, with the same start containers — so all theorems above hold for every later call. -/
+theorem evolve_again (sc : Schedule) (hwf : WellFormed sc = true) (ops : Ops σ V) (cfg : Cfg V)
+    (st : State σ V) (hr : Ready ops st) (hR : Respects (startRefs ops st) ops)
+    (n : Nat) (hn : effNgen sc cfg = some n) :
+    Ready ops (evolve ops cfg sc st) ∧ startRefs ops (evolve ops cfg sc st) = startRefs ops st := by
+  obtain ⟨s', es0, es1, V0, q, g, _, _, _, _, _, _, _, _, _, _, hS⟩ := evolve_wf (cfg := cfg) sc hwf hr hR n hn
+  rw [q]
+  exact ⟨(g.ready hS).1, (g.ready hS).2.1⟩
+
+/-- **`reset()`** (anchored mechanism 1) called directly: from any state satisfying the invariant,
+    the five working variables afterwards refer to valid cells outside the object graphs of the start
+    containers (**a disjoint graph**), what is seen below them equals the initial state (**an equal
+    graph**), the clock is 0, nothing is logged and the invariant still holds. -/
+theorem reset_restores_start (sc : Schedule) (hwr : wfReset sc = true) (ops : Ops σ V) (cfg : Cfg V)
+    (S : List Ref) (V0 : List (Option (View V))) (hS : S.length = 5) (hR : Respects S ops) (st : State σ V)
+    (g : Good cfg.depth S V0 st) :
     ∃ cur : List Ref, cur.length = 5 ∧
-      five.map (execR ops cfg sc .callReset st).regs = cur.map some ∧
-      vals (execR ops cfg sc .callReset st).heap cur = V0 ∧
-      (∀ a ∈ cur, a < (execR ops cfg sc .callReset st).heap.length ∧ a ∉ S) ∧
-      (execR ops cfg sc .callReset st).t = 0 ∧
-      (execR ops cfg sc .callReset st).trace = st.trace ∧
-      Good S V0 (execR ops cfg sc .callReset st) := by
-  have hsc : sc.strip = canonical := by simpa [WellFormed] using hwf
-  rw [← execR_strip, hsc]
-  have : execR ops cfg canonical .callReset st = execList (execS ops cfg) canonical.reset st := by
-    simp [execR, g.nbad]
-  rw [this]
-  obtain ⟨s', cur, q, g', tr, t0, _, f, l, hv⟩ := reset_spec (ops := ops) (cfg := cfg) hS g
+      five.map (resetCall ops cfg sc st).regs = cur.map some ∧
+      vals cfg.depth (resetCall ops cfg sc st).heap cur = V0 ∧
+      (∀ a ∈ cur, a < (resetCall ops cfg sc st).heap.length ∧
+        ∀ x, Reach (resetCall ops cfg sc st).heap a x → ¬ InReg (resetCall ops cfg sc st).heap S x) ∧
+      (resetCall ops cfg sc st).t = 0 ∧
+      (resetCall ops cfg sc st).trace = st.trace ∧
+      Good cfg.depth S V0 (resetCall ops cfg sc st) := by
+  obtain ⟨s', cur, q, g', tr, t0, _, f, l, hv⟩ := reset_spec (cfg := cfg) hR hS sc hwr g
   rw [q]
   refine ⟨cur, l, f, hv, ?_, t0, tr, g'⟩
   intro a ha
   have : some a ∈ five.map s'.regs := by rw [f]; exact List.mem_map.mpr ⟨a, ha, rfl⟩
   obtain ⟨r, _, hr⟩ := List.mem_map.mp this
-  exact g'.regs r a hr
+  exact ⟨(g'.regs r a hr).1, fun x hx => g'.iso.reach (g'.regs r a hr).2 hx⟩
 
-/-- **`advance(ngen)`** (anchored mechanism 2): from any state satisfying the invariant whose five
-    working variables are set, `advance` records exactly `ngen` generations
+/-- **`advance(ngen)`** (anchored mechanism 2) called directly: from any state satisfying the
+    invariant whose five working variables are set, `advance` records exactly `ngen` generations
     pselect·log·mate·log·evaluate·log·sselect·log at clock values `t, t+1, …`, every call handed what
     its predecessor returned, and leaves the clock at `t + ngen`. -/
 theorem advance_meets_spec (sc : Schedule) (hwf : WellFormed sc = true) (ops : Ops σ V) (cfg : Cfg V)
-    (S : List Ref) (V0 : List (Option V)) (hR : Respects S ops) (st : State σ V) (g : Good S V0 st)
-    (cur : List Ref) (hcur : five.map st.regs = cur.map some) (hl : cur.length = 5) :
-    ∃ es : List (Event V), (advance ops cfg sc st).trace = st.trace ++ es ∧
-      (advance ops cfg sc st).t = st.t + cfg.ngen ∧ Good S V0 (advance ops cfg sc st) ∧
-      ∀ (R : Item V → Item V → Bool), ReflOnRefs R → ∀ given : List (Item V), given.map Prod.fst = cur →
-        checkGens R V0 cfg.ngen st.t given es = some [] := by
-  have hsc : sc.strip = canonical := by simpa [WellFormed] using hwf
-  rw [← advance_strip, hsc]
-  have : advance ops cfg canonical st =
-      iter (execList (execR ops cfg canonical) canonical.advanceGen) cfg.ngen st := by
-    simp [advance, canonical, execList]
-  rw [this]
-  obtain ⟨s', es, q, g', tr, t', _, _, _, chk⟩ := gens_spec (cfg := cfg) hR cfg.ngen g cur hcur hl
-  rw [q]
-  refine ⟨es, tr, t', g', ?_⟩
-  intro R hRR given hg
-  have := chk R hRR given [] hg
-  rwa [List.append_nil] at this
+    (n : Nat) (hn : cfg.ngen = some n)
+    (S : List Ref) (V0 : List (Option (View V))) (hS : S.length = 5) (hR : Respects S ops) (st : State σ V)
+    (g : Good cfg.depth S V0 st) (cur : List Ref) (hcur : five.map st.regs = cur.map some) (hl : cur.length = 5)
+    (R : Item (View V) → Item (View V) → Bool) (hRR : ReflOnRefs R) :
+    specAdvance R n st.t V0 (items cur (vals cfg.depth st.heap cur)) (newEvents st (advanceCall ops cfg sc st)) = true ∧
+      (advanceCall ops cfg sc st).t = st.t + n ∧ Good cfg.depth S V0 (advanceCall ops cfg sc st) := by
+  simp only [WellFormed, Bool.and_eq_true] at hwf
+  obtain ⟨s', es, cur', q, g', tr, t', _, _, _, spec⟩ :=
+    advance_spec (cfg := cfg) hR hS sc hwf.1.2 hwf.1.1.2 n hn g cur hcur hl
+  rw [q, newEvents_of_append tr]
+  exact ⟨spec R hRR _ (by rw [items_fst]; rw [vals_length]), t', g'⟩
+
+/-- **Histories of API calls.**  From a state satisfying the invariant (e.g. the state any `evolve`
+    call leaves), every history of `evolve`, `reset` and `advance` calls in which `advance` is only
+    called while working containers exist meets the Spec call by call — each `evolve` its trace Spec
+    with the initial state `V0`, each `reset` "working containers equal `V0`, clock 0", each `advance`
+    its generations from the current clock — and the start containers still hold `V0` at the end. -/
+theorem history_meets_spec (sc : Schedule) (hwf : WellFormed sc = true) (hwr : wfReset sc = true)
+    (ops : Ops σ V) (tmax : Nat) (emptyV : V) (depth : Nat) (S : List Ref) (V0 : List (Option (View V)))
+    (hS : S.length = 5) (hR : Respects S ops) (R : Item (View V) → Item (View V) → Bool) (hRR : ReflOnRefs R)
+    (cs : List Call) (held : Bool) (st : State σ V) (g : Good depth S V0 st)
+    (hheld : held = true → ∃ cur : List Ref, five.map st.regs = cur.map some ∧ cur.length = 5)
+    (hadm : admissible cs held = true)
+    (hnone : ∀ c ∈ cs, ∀ nrep li, c = .evolve nrep none li → HandlesNone sc = true) :
+    histOK R ops sc tmax emptyV depth V0 cs st ∧
+      startVals depth (runCalls ops tmax emptyV depth sc cs st).heap (runCalls ops tmax emptyV depth sc cs st).start = V0 ∧
+      (runCalls ops tmax emptyV depth sc cs st).bad = false := by
+  obtain ⟨h1, h2⟩ := history_spec hR hS sc hwf hwr tmax emptyV depth R hRR cs held st g hheld hadm hnone
+  exact ⟨h1, h2.startVals, h2.nbad⟩
+
+/-- the classical frame condition ("operators and logbook mutate only what they are handed, and
+    allocate") is sufficient: it implies `Respects` for any start containers -/
+theorem evolve_meets_spec_of_frame (sc : Schedule) (hwf : WellFormed sc = true) (ops : Ops σ V)
+    (cfg : Cfg V) (st : State σ V) (hr : Ready ops st) (hF : Frame ops) (n : Nat)
+    (hn : effNgen sc cfg = some n) :
+    specTrace sameRef cfg.nrep n cfg.loginit (startVals cfg.depth st.heap st.start)
+      (newEvents st (evolve ops cfg sc st)) = true :=
+  evolve_meets_spec sc hwf ops cfg st hr (hF.respects _) n hn sameRef sameRef_refl
+
+/-- **Instance for the current source** (full: the generation count is the argument `ngen` of
+    `evolve`, an integer or `None` = "use t_max").  The schedule regenerated from `/repo` satisfies
+    the Spec (identity wiring) for all operators, replicate counts, generation counts and initial
+    states, does not raise, and keeps its start slots. -/
+theorem current_source_meets_spec (ops : Ops σ V) (cfg : Cfg V) (st : State σ V) (hr : Ready ops st)
+    (hR : Respects (startRefs ops st) ops) :
+    specTrace sameRef cfg.nrep (cfg.ngen.getD cfg.tmax) cfg.loginit (startVals cfg.depth st.heap st.start)
+      (newEvents st (evolve ops cfg C20Schedule.evolve st)) = true ∧
+    (evolve ops cfg C20Schedule.evolve st).bad = false ∧
+    (evolve ops cfg C20Schedule.evolve st).start = (startRefs ops st).map some :=
+  have he : effNgen C20Schedule.evolve cfg = some (cfg.ngen.getD cfg.tmax) := by
+    simp [effNgen, schedule_handles_none]
+  ⟨evolve_meets_spec _ schedule_wellformed ops cfg st hr hR _ he sameRef sameRef_refl,
+   (evolve_start_intact _ schedule_wellformed ops cfg st hr hR _ he).1,
+   (evolve_start_intact _ schedule_wellformed ops cfg st hr hR _ he).2.1⟩
 
 end generic
 
-/-! ### non-vacuity: concrete operators, states and runs -/
+/-! ### non-vacuity: concrete operators, states, schedules and runs -/
 section examples
 open Program.Demo
 
@@ -252,61 +281,125 @@ example (S : List Ref) : Respects S demoOps := demo_respects S
 example : Ready demoOps given := given_ready demoOps
 example : Ready demoOps partly := partly_ready
 
-/-- the invariant assumed by `reset_restores_start` / `advance_meets_spec` holds of a concrete state;
-    after `reset` the hypothesis of `advance_meets_spec` (five working variables set) holds too -/
-example : Good [0, 1, 2, 3, 4] [some 10, some 20, some 30, some 40, some 50] given := given_good
-example : five.map (execR demoOps ⟨1, 1, 9, true, 0⟩ C20Schedule.evolve .callReset given).regs
-    = [5, 6, 7, 8, 9].map some := by decide +kernel
+/-- `WellFormed` is a property of the dataflow, not of the text: the canonical skeleton, the patched
+    one, and a programme written quite differently (deep copies in another order with a redundant one,
+    clock zeroed in `evolve`, other local names, shuffled keyword arguments, results routed through
+    locals, extra allocations and no-ops) are all accepted … -/
+example : WellFormed canonical = true := by decide
+example : WellFormed patched = true ∧ HandlesNone patched = true := by decide
+example : WellFormed rewritten = true ∧ strip rewritten.advanceGen ≠ strip canonical.advanceGen := by decide
 
-/-- the hypotheses of `evolve_meets_spec` are met by a non-trivial instance (3 replicates,
-    2 generations, in-place mutating operators, the schedule of the current source) -/
-example : specTrace sameRef 3 2 true (startVals given.heap given.start)
-    (newEvents given (evolve demoOps ⟨3, 2, 9, true, 0⟩ C20Schedule.evolve given)) = true :=
-  evolve_meets_spec _ schedule_wellformed demoOps ⟨3, 2, 9, true, 0⟩ given (given_ready _)
-    (demo_respects _) sameRef sameRef_refl
+/-- … while schedules with a wrong dataflow are rejected: mating before parent selection, a result
+    not assigned back, a stale container handed on, a shallow alias instead of a deep copy, the clock
+    not reset, the logbook call dropped -/
+example : WellFormed { canonical with reset := canonical.reset.map (fun s =>
+    if s = .copyStart .geno 1 then .aliasStart .geno 1 else s) } = false := by decide
+example : WellFormed { canonical with reset := canonical.reset.filter (fun s => decide (s ≠ .setT0)) } = false := by
+  decide
+example : WellFormed { canonical with reset := [.copyStart .genome 0, .copyStart .geno 1, .copyStart .pheno 2,
+    .copyStart .bval 2, .copyStart .gmod 4, .setT0] } = false := by decide
+example : WellFormed { canonical with advanceGen := canonical.advanceGen.filter (fun s => decide (s ≠ .tick)) } = false := by
+  decide
+example : WellFormed { canonical with advanceGen := canonical.advanceGen.map (fun s => match s with
+    | .call .evaluate args _ => .call .evaluate args [.loc 30, .loc 31, .loc 32, .loc 33, .loc 34]
+    | s => s) } = false := by decide
+example : WellFormed { canonical with advanceGen := canonical.advanceGen.filter (fun s => match s with
+    | .log .mate _ _ => false
+    | _ => true) } = false := by decide
 
-/-- the same conclusion obtained by running the model (the Spec is executable): 2 replicates,
+/-- the hypotheses of `evolve_meets_spec` are met by non-trivial instances (3 replicates,
+    2 generations, in-place mutating operators): the schedule of the current source, and the
+    differently written one -/
+example : specTrace sameRef 3 2 true (startVals 2 given.heap given.start)
+    (newEvents given (evolve demoOps ⟨3, some 2, 9, true, 0, 2⟩ C20Schedule.evolve given)) = true :=
+  evolve_meets_spec _ schedule_wellformed demoOps ⟨3, some 2, 9, true, 0, 2⟩ given (given_ready _)
+    (demo_respects _) 2 rfl sameRef sameRef_refl
+
+example : specTrace sameRef 3 2 true (startVals 2 given.heap given.start)
+    (newEvents given (evolve demoOps ⟨3, some 2, 9, true, 0, 2⟩ rewritten given)) = true :=
+  evolve_meets_spec _ (by decide) demoOps ⟨3, some 2, 9, true, 0, 2⟩ given (given_ready _)
+    (demo_respects _) 2 rfl sameRef sameRef_refl
+
+/-- the same conclusions obtained by running the model (the Spec is executable): 2 replicates,
     2 generations, 36 recorded calls -/
-example : specTrace sameRef 2 2 true (startVals given.heap given.start)
-    (evolve demoOps ⟨2, 2, 9, true, 0⟩ C20Schedule.evolve given).trace = true := by decide +kernel
+example : specTrace sameRef 2 2 true (startVals 2 given.heap given.start)
+    (evolve demoOps ⟨2, some 2, 9, true, 0, 2⟩ C20Schedule.evolve given).trace = true := by decide +kernel
 
-example : (evolve demoOps ⟨2, 2, 9, true, 0⟩ C20Schedule.evolve given).trace.length = 36 := by decide +kernel
+example : specTrace sameRef 2 2 true (startVals 2 given.heap given.start)
+    (evolve demoOps ⟨2, some 2, 9, true, 0, 2⟩ rewritten given).trace = true := by decide +kernel
+
+example : (evolve demoOps ⟨2, some 2, 9, true, 0, 2⟩ C20Schedule.evolve given).trace.length = 36 := by decide +kernel
 
 /-- … and for the programme that `evolve` has to initialise first (one more event) -/
-example : specTrace sameOrEqual 2 1 false (startVals partly.heap partly.start)
-    (evolve demoOps ⟨2, 1, 9, false, 0⟩ C20Schedule.evolve partly).trace = true := by decide +kernel
+example : specTrace sameOrEqual 2 1 false (startVals 2 partly.heap partly.start)
+    (evolve demoOps ⟨2, some 1, 9, false, 0, 2⟩ C20Schedule.evolve partly).trace = true := by decide +kernel
 
-/-- the operators of the example really mutate their working copies: after the run the heap has
-    grown and the first working copy differs from the start container it was copied from, while the
-    start containers are untouched -/
-example : (evolve demoOps ⟨2, 2, 9, true, 0⟩ C20Schedule.evolve given).heap.take 6 = [10, 20, 30, 40, 50, 17] := by
+/-- the operators of the example really mutate an object *below* their working copy of `genome`
+    (cell 15 is the copy of cell 5, which lies below start container 0) while the object graphs of the
+    start containers (cells 0–9) are untouched -/
+example : (evolve demoOps ⟨2, some 2, 9, true, 0, 2⟩ canonical given).heap.take 10 = given.heap ∧
+    (evolve demoOps ⟨2, some 2, 9, true, 0, 2⟩ canonical given).heap[15]? = some ⟨8, []⟩ ∧
+    given.heap[5]? = some ⟨1, []⟩ := by
   decide +kernel
 
-/-- the Spec is not vacuous: it rejects the trace of a schedule whose `advance` forgets the clock … -/
-example : specTrace sameOrEqual 2 2 true (startVals given.heap given.start)
-    (evolve demoOps ⟨2, 2, 9, true, 0⟩
-      { canonical with advanceGen := canonical.advanceGen.filter (fun s => decide (s ≠ Stmt.tick)) } given).trace
-    = false := by decide +kernel
+/-- a *shallow* copy of one start container (`dict(self.start_gmod)`) is rejected by the dataflow
+    analysis, and its run violates the Spec: the operators reach the start container's inner object
+    through the shared reference -/
+example : WellFormed shallow = false := by decide
+example : specTrace sameOrEqual 2 1 true (startVals 2 given.heap given.start)
+    (evolve demoOps ⟨2, some 1, 9, true, 0, 2⟩ shallow given).trace = false := by decide +kernel
 
-/-- … and the trace of a schedule whose `reset` copies the wrong start container -/
-example : specTrace sameOrEqual 2 1 true (startVals given.heap given.start)
-    (evolve demoOps ⟨2, 1, 9, true, 0⟩
-      { canonical with reset := [.copyStart .genome 0, .copyStart .geno 1, .copyStart .pheno 2,
-                                 .copyStart .bval 2, .copyStart .gmod 4, .resetT] } given).trace
+/-- the invariant assumed by `reset_restores_start` / `advance_meets_spec` / `history_meets_spec`
+    holds of a concrete state, and a concrete admissible history: reset, advance 2, reset, advance 1,
+    evolve(2, 1), advance 1 -/
+example : Good 2 [0, 1, 2, 3, 4] (vals 2 given.heap [0, 1, 2, 3, 4]) given := given_good 2
+example : admissible [.reset, .advance 2, .reset, .advance 1, .evolve 2 (some 1) true, .advance 1] false = true := by
+  decide
+example : (runCalls demoOps 9 0 2 C20Schedule.evolve
+    [.reset, .advance 2, .reset, .advance 1, .evolve 2 (some 1) true, .advance 1] given).trace.length = 52 := by
+  decide +kernel
+
+/-- the schedule of the current source (and the literal patched skeleton) meet the Spec for
+    `ngen = None` with `t_max = 2` generations -/
+example : specTrace sameRef 2 2 true (startVals 2 given.heap given.start)
+    (evolve demoOps ⟨2, none, 2, true, 0, 2⟩ patched given).trace = true := by decide +kernel
+example : specTrace sameRef 2 2 true (startVals 2 given.heap given.start)
+    (evolve demoOps ⟨2, none, 2, true, 0, 2⟩ C20Schedule.evolve given).trace = true := by decide +kernel
+example : specTrace sameRef 2 2 true (startVals 2 given.heap given.start)
+    (newEvents given (evolve demoOps ⟨2, none, 2, true, 0, 2⟩ C20Schedule.evolve given)) = true :=
+  (current_source_meets_spec demoOps ⟨2, none, 2, true, 0, 2⟩ given (given_ready _) (demo_respects _)).1
+
+/-- the Spec is not vacuous: it rejects the trace of a schedule whose `advance` forgets the clock -/
+example : specTrace sameOrEqual 2 2 true (startVals 2 given.heap given.start)
+    (evolve demoOps ⟨2, some 2, 9, true, 0, 2⟩
+      { canonical with advanceGen := canonical.advanceGen.filter (fun s => decide (s ≠ Stmt.tick)) } given).trace
     = false := by decide +kernel
 
 end examples
 
-/-- **The frame condition cannot be dropped.**  An operator that overwrites a stored start
-    container it was never handed (`rogueOps` writes cell 0) violates `Respects`, and the run
+/-- **`ngen = None` before the repair (D36, fixed by 89fb67b3).**  The call skeleton of the source
+    before the repair (the canonical schedule without the `ngen is None` default) did not implement the
+    documented default; with one replicate requested the run raised (`range(None)`) after the initial
+    evaluation, and the recorded trace did not satisfy the Spec for `t_max` generations. -/
+theorem evolve_ngen_none_prerepair_counterexample :
+    HandlesNone canonical = false ∧
+    (evolve Program.Demo.demoOps ⟨1, none, 2, true, 0, 2⟩ canonical Program.Demo.given).bad = true ∧
+    specTrace sameOrEqual 1 2 true (startVals 2 Program.Demo.given.heap Program.Demo.given.start)
+      (evolve Program.Demo.demoOps ⟨1, none, 2, true, 0, 2⟩ canonical Program.Demo.given).trace = false := by
+  decide +kernel
+
+/-- **The frame condition cannot be dropped.**  An operator that overwrites a cell of a stored start
+    container although it is handed nothing (`rogueOps` writes cell 0) violates `Respects`, and the run
     violates the Spec: the initial state is modified and later replicates start from it. -/
 theorem frame_condition_necessary :
     ¬ Respects [0, 1, 2, 3, 4] Program.Demo.rogueOps ∧
-    specTrace sameOrEqual 2 1 true (startVals Program.Demo.given.heap Program.Demo.given.start)
-      (evolve Program.Demo.rogueOps ⟨2, 1, 9, true, 0⟩ C20Schedule.evolve Program.Demo.given).trace = false := by
+    specTrace sameOrEqual 2 1 true (startVals 2 Program.Demo.given.heap Program.Demo.given.start)
+      (evolve Program.Demo.rogueOps ⟨2, some 1, 9, true, 0, 2⟩ canonical Program.Demo.given).trace = false := by
   constructor
   · intro h
-    have := (h.op .evaluate () [10, 20, 30, 40, 50, 10] [5] 0 0 (by decide) (by decide)).2.1 0 (by decide)
+    have := (h.op .evaluate () Program.Demo.given.heap [] 0 0 Program.Demo.given_wf
+      (Program.Demo.region_lt_length Program.Demo.given_wf Program.Demo.given_valid)
+      (Program.Demo.iso_of_all_in Program.Demo.given_all_in) (by simp)).2.2.1 0 (InReg.of_mem (by simp))
     revert this
     decide +kernel
   · decide +kernel
